@@ -1,4 +1,4 @@
-HOOK_COMMITS = ['f1571dc', '04e6a20', 'ab40d75', '0b4062a']
+HOOK_COMMITS = ['0b4062a', 'ab40d75', '04e6a20', 'f1571dc', '486cecc']
 # properties whose check exists but whose theorems are still being proved: not claimed yet
 PENDING = set()
 NOT_YET = {}
@@ -99,9 +99,12 @@ TEXT = {
     "C11": {
         "text": "Lean 4 theorems (Props/C11.lean) about the store operation model for every state, id and history: a successful Create/Update/Delete acts exactly as on a key-value map; "
                 "duplicate / empty id / not-found / wrong type / veto fail, leave the state unchanged and run no callback; exactly one callback per successful mutation with the value "
-                "immediately before and after; over any history the callbacks of an id form a chain; reads inside the transaction see its own writes. Tie: the same operation streams run "
-                "on real badgerstore (with and without prefix, typed) on a real BadgerDB and on mockstore, results and callbacks compared with the model (= the map specification).",
-        "note": "Trusted: Lean kernel; the transcription of badgerstore into Model/Index.lean / Model/StoreMap.lean; BadgerDB v1.6.2 (transactions atomic and durable, iterator Seek/ValidForPrefix semantics as modelled and exercised on a real database in a temp dir); taskqueue FIFO; encoding/json. Per-id mutual exclusion between goroutines is keylock / the mockstore mutex (trusted dependencies); the correspondence run is sequential per store.",
+                "immediately before and after; over any history the callbacks of an id form a chain; reads inside the transaction see its own writes; the per-id read/write lock model "
+                "(Model/Lock.lean): while a transaction is open on an id no write lock on it is granted, writer and readers never coexist. Tie: the same operation streams run "
+                "on real badgerstore (with and without prefix, typed) on a real BadgerDB and on mockstore, results and callbacks compared with the model (= the map specification): single "
+                "operations, several operations inside one write transaction (txn), lock grants observed with a held transaction and a contender goroutine (excl), and concurrent histories "
+                "of 2-6 goroutines contending on 1-3 ids, ordered by stamps taken inside the transactions and replayed by the Lean side as a per-id sequential history (results and callbacks).",
+        "note": "Trusted: Lean kernel; the transcription of badgerstore into Model/Index.lean / Model/StoreMap.lean; BadgerDB v1.6.2 (transactions atomic and durable, iterator Seek/ValidForPrefix semantics as modelled and exercised on a real database in a temp dir); taskqueue FIFO; encoding/json. Per-id mutual exclusion between goroutines is keylock / the mockstore mutex (trusted dependencies, modelled as a read/write lock and observed by the excl operations); concurrent histories are sampled executions, not all interleavings.",
     },
     "C12": {
         "text": "Lean 4 theorems (Props/C12.lean): a crash leaves exactly a committed prefix of the transactions (the one in flight all-or-nothing); Init is one transaction that seeds only missing "
@@ -121,10 +124,15 @@ TEXT = {
     },
     "C14": {
         "text": "Lean 4 theorems (Props/C14.lean): the query-change callbacks run exactly when the mutation changes the key in some index; if the mutation changes what a query returns (any "
-                "prefix, filter, window, direction) the change reports it affected; if neither the old nor the new key matches it reports it unaffected; same key never reported. "
+                "prefix, filter, window, direction) the change reports it affected; if neither the old nor the new key matches it reports it unaffected; same key never reported; "
+                "through the query handler (Model/QueryHandler.lean = store/querystorehandler.go + the stock transformers): whatever sound answer the query store gives to Events (reset, or "
+                "result events), a client of an ordinary or of a query resource that reacts to what it is told (get again / apply events / new result) holds the transformed new result "
+                "(resource_client_coherent, query_client_coherent), BadgerDB's answer is sound for every mutation and query (badger_answer_sound), hence badger_clients_coherent end to end. "
                 "Tie: real QueryStore with watches; after each Flush the callbacks (ids in order, affected flags per watched query) are compared with the model and judged against "
-                "the values by the Lean specification.",
-        "note": "Trusted: Lean kernel; the transcription of badgerstore into Model/Index.lean / Model/StoreMap.lean; BadgerDB v1.6.2 (transactions atomic and durable, iterator Seek/ValidForPrefix semantics as modelled and exercised on a real database in a temp dir); taskqueue FIFO; encoding/json. The query handler layer (store.QueryHandler: reset vs query events) is exercised only through the model of affectsQuery; Events() returns no event list (as in the code).",
+                "the values by the Lean specification; the qh stream runs store.QueryHandler on a real service over a real BadgerDB (ordinary, path-parameter and query resources, "
+                "model and collection transformers, AffectedResources; the badger query store and a wrapper answering with result events): a reference client written in Lean is fed what "
+                "the service publishes and answers and must hold what sort-filter-window over the values gives after every mutation.",
+        "note": "Trusted: Lean kernel; the transcription of badgerstore into Model/Index.lean / Model/StoreMap.lean; BadgerDB v1.6.2 (transactions atomic and durable, iterator Seek/ValidForPrefix semantics as modelled and exercised on a real database in a temp dir); taskqueue FIFO; encoding/json. BadgerDB's Events() returns no event list (as in the code); the event paths of the handler are exercised with a harness-side query store wrapper that computes result events from a shadow copy of the values (its algorithm is mirrored by QueryHandler.diffEvents in the model; its soundness is checked at run time by the reference client, not proved).",
     },
     "C18": {
         "text": "Lean 4 theorems (Props/C18.lean): Ref/SoftRef.MarshalJSON and MarshalDataValue assemble exactly {\"rid\":enc}, {\"rid\":enc,\"soft\":true}, {\"data\":enc} for every encoding of every "
